@@ -1,9 +1,10 @@
 (* C01 — stream round-trip: packets survive any chunking of the byte stream, on both receive paths.
    Model: coq/Frame/ReadUntil.v, Frame/BufReadUntil.v, Stream/Consumer.v (hand-written from tools.py, base_stream.py,
    line.py, _stream.py; tied to /repo by harness/c01.py).  The inner one-shot codec (enc, dec) is arbitrary. *)
-From Coq Require Import List Arith.
+From Coq Require Import List Arith ZArith.
 From EN Require Import Lib.Bytes Frame.Framer Frame.ReadUntil Frame.BufReadUntil Stream.Consumer Stream.SpecDecode
-  Frame.Serialize Frame.Convert Proofs.C01_proofs Proofs.Convert_proofs Proofs.Fixed_proofs Proofs.BufFixed_proofs Proofs.Serialize_proofs.
+  Frame.Serialize Frame.Convert Frame.JsonRaw Frame.JsonGrammar Frame.ErrSites Frame.Generic
+  Proofs.C07_extra Proofs.C01_generic Proofs.C01_json Proofs.C01_proofs Proofs.Convert_proofs Proofs.Fixed_proofs Proofs.BufFixed_proofs Proofs.Serialize_proofs.
 Import ListNotations.
 
 (* Copying consumer (StreamDataConsumer over read_until): for EVERY list of packets valid for the codec, EVERY way of
@@ -132,6 +133,77 @@ Proof.
   exists c'. split; [exact Hd | apply fx_tail_short; exact Hs].
 Qed.
 Print Assumptions fixed_size_buffered_chunk_independent.
+
+(* ================= raw JSON (JSONSerializer(use_lines=False)) ================= *)
+(* The raw-JSON scanner returns exactly at the last byte of a grammar enclosure (object, array or string of compact JSON,
+   strings with backslash escapes — coq/Frame/JsonGrammar.v), whatever follows it. *)
+Theorem jsonraw_split_balanced :
+  forall (v rest : bytes), jvalue v -> starts_enclosure v = true -> jscan [] (v ++ rest) jcount0 = JSClosed (length v).
+Proof. exact C01_json.jsonraw_split_balanced. Qed.
+Print Assumptions jsonraw_split_balanced.
+
+(* Every list of documents as sent (enclosures as they are, other values + "\n"), each at most [limit] bytes, every
+   chunking: one event per document in order (packet, or decode error when dec rejects it), consumer idle, nothing left. *)
+Theorem json_roundtrip :
+  forall (P : Type) (limit : nat) (dec : decoder P) (docs chunks : list bytes) (fuel : nat),
+    Forall (fun ch => ch <> []) chunks -> Forall (jdoc_ok limit) docs -> concat chunks = concat docs ->
+    length (concat chunks) < fuel ->
+    exists c', cdeliver (json_framer limit dec) fuel (cinit _) chunks = (c', map (jev dec) docs) /\
+               cbuf c' = [] /\ ccons c' = None.
+Proof. intros P limit dec docs chunks fuel. exact (json_roundtrip_l limit dec docs chunks fuel). Qed.
+Print Assumptions json_roundtrip.
+
+(* ================= generic framers (file based, compressors) ================= *)
+(* File based: the loader is a streaming prefix-code recogniser for enc (hypotheses 2 and 3 — the contract of
+   pickle/cbor/msgpack loaders, validated by execution); size band: frame <= m and m + one read <= limit. *)
+Theorem generic_roundtrip_filebased :
+  forall (P : Type) (limit : nat) (load : bytes -> lres P) (expected : Z -> bool) (enc : P -> bytes),
+    (forall p, enc p <> []) ->
+    (forall p r, load (enc p ++ r) = LDone p (length (enc p))) ->
+    (forall p q x, enc p = q ++ x -> x <> [] -> load q = LEof (length q)) ->
+    forall (pkts : list P) (chunks : list bytes) (m fuel : nat),
+      Forall (fun ch => ch <> []) chunks -> concat chunks = concat (map enc pkts) ->
+      Forall (fun p => length (enc p) <= m) pkts -> Forall (fun ch : bytes => m + length ch <= limit) chunks ->
+      length (concat chunks) < fuel ->
+      exists c', cdeliver (wrap_generic (fb_framer limit load expected)) fuel (cinit _) chunks = (c', map RPkt pkts) /\
+                 cbuf c' = [] /\ ccons c' = None.
+Proof. intros P limit load expected enc H1 H2 H3 pkts chunks m fuel. exact (fb_roundtrip_l limit load expected enc H1 H2 H3 pkts chunks m fuel). Qed.
+Print Assumptions generic_roundtrip_filebased.
+
+(* Compressors: the decompressor object is a streaming prefix-code recogniser (zlib's/bz2's contract, validated by
+   execution); drep d w o = d has been fed w and has output o. *)
+Theorem generic_roundtrip_compressor :
+  forall (P D : Type) (dnew : D) (dd : D -> bytes -> (D * bytes) + Z) (deof : D -> bool) (dunused : D -> bytes)
+         (expected : Z -> bool) (inner : bytes -> ores P) (inner_declared : Z -> bool)
+         (enc payload : P -> bytes) (drep : D -> bytes -> bytes -> Prop),
+    (forall p, enc p <> []) -> drep dnew [] [] ->
+    (forall d w o (ch : bytes) p x, drep d w o -> ch <> [] -> enc p = (w ++ ch) ++ x -> x <> [] ->
+       exists d' out, dd d ch = inl (d', out) /\ deof d' = false /\ drep d' (w ++ ch) (o ++ out)) ->
+    (forall d w o (ch : bytes) p r, drep d w o -> w ++ ch = enc p ++ r -> length w < length (enc p) ->
+       exists d' out, dd d ch = inl (d', out) /\ deof d' = true /\ dunused d' = r /\ o ++ out = payload p) ->
+    (forall p, inner (payload p) = OOk p) ->
+    forall (pkts : list P) (chunks : list bytes) (fuel : nat),
+      Forall (fun ch => ch <> []) chunks -> concat chunks = concat (map enc pkts) -> length (concat chunks) < fuel ->
+      exists c', cdeliver (cz_framer D dnew dd deof dunused expected inner inner_declared) fuel (cinit _) chunks
+                 = (c', map RPkt pkts) /\ cbuf c' = [] /\ ccons c' = None.
+Proof. intros P D dnew dd deof dunused expected inner inner_declared enc payload drep H1 H2 H3 H4 H5 pkts chunks fuel.
+  exact (cz_roundtrip_l D dnew dd deof dunused expected inner inner_declared enc payload drep H1 H2 H3 H4 H5 pkts chunks fuel). Qed.
+Print Assumptions generic_roundtrip_compressor.
+
+(* Buffer-filling twin (framer level): one code word arriving over several receive rounds (buffer contents, nbytes),
+   completed by the last round, with a surplus r: the generator returns the packet and r. *)
+Theorem generic_buffered_word_filebased :
+  forall (P : Type) (limit : nat) (load : bytes -> lres P) (expected : Z -> bool) (enc : P -> bytes),
+    (forall p r, load (enc p ++ r) = LDone p (length (enc p))) ->
+    (forall p q x, enc p = q ++ x -> x <> [] -> load q = LEof (length q)) ->
+    forall (alloc : nat -> nat) (rounds : list (bytes * nat)) (p : P) (r : bytes),
+      rounds <> [] -> Forall (fun x => firstn (snd x) (fst x) <> []) rounds ->
+      concat (map (fun x => firstn (snd x) (fst x)) rounds) = enc p ++ r ->
+      length (concat (removelast (map (fun x => firstn (snd x) (fst x)) rounds))) < length (enc p) ->
+      length (enc p ++ r) <= limit ->
+      first_bevent (fb_framer limit load expected) alloc None rounds = Some (BDone p r).
+Proof. intros P limit load expected enc H1 H2 alloc rounds p r. exact (fb_buffered_word_l limit load expected enc H1 H2 alloc rounds p r). Qed.
+Print Assumptions generic_buffered_word_filebased.
 
 (* Non-vacuity: a concrete codec meets valid_pkt for every packet within the bound, and a 3-packet stream cut inside
    the separator is delivered. *)
